@@ -19,7 +19,7 @@ from harness.common import sexp
 from harness.common.ctx import Timeout, time_limit
 
 EXE = "c13_model"
-PROPS = ["Holpy.C13.Props", "Holpy.C13.Props2"]
+PROPS = ["Holpy.C13.Props", "Holpy.C13.Props2", "Holpy.C13.Props3"]
 
 THEORIES_QUICK = ["logic_base", "logic", "function", "list", "hoare", "nat", "set"]
 THEORIES_THOROUGH = ["logic_base", "logic", "function", "list", "hoare", "nat", "set", "expr", "topology"]
@@ -97,6 +97,18 @@ def args_str(it):
         return it.print_str_args() if it.args else ""
     except Exception as e:  # noqa
         return "<unprintable %s>" % type(e).__name__
+
+
+def cell_text(obj):
+    try:
+        return repr(obj)
+    except Exception as e:  # noqa
+        return "<unprintable %s>" % type(e).__name__
+
+
+def arg_cells(state):
+    """The argument objects reachable from a state, by identity, with their content."""
+    return {id(it.args): (it.args, cell_text(it.args)) for _, it in walk(state) if it.args is not None}
 
 
 def snapshot(state):
@@ -728,6 +740,10 @@ class Runner:
         self.goal.set_context()
         before = snapshot(self.state)
         target = copy.copy(self.state) if on_copy else self.state
+        cells = arg_cells(self.state) if on_copy else None     # stream `alias`
+        if on_copy:
+            shared = sum(1 for _, it in walk(target) if it.args is not None and id(it.args) in cells)
+            ctx.count("alias:args-objects-shared-with-the-copy", shared)
         entry = {"step": clean_step(step), "on_copy": on_copy, "adopt": adopt, "source": source}
         outcome, err = "ok", None
         self.cause = step_cause(self.state, step)
@@ -757,6 +773,17 @@ class Runner:
                 self.dead = True
             return outcome
         self.trail.append(entry)
+        if cells is not None:
+            # heap effect of the operation as the aliasing model states it: fresh argument objects
+            # only, no write into an object that existed before (Holpy/C13/AliasModel.lean)
+            changed = [k for k, (obj, txt) in cells.items() if cell_text(obj) != txt]
+            moved = [pos for pos, it in walk(self.state) if it.args is not None and id(it.args) not in cells]
+            if changed or moved:
+                ctx.count("alias:in-place-update:" + name)
+                ctx.broken("correspondence:c13:alias", "%s on a copy wrote into %d argument object(s) that existed before "
+                           "(the model has every operation allocate fresh objects only)" % (name, len(changed) + len(moved)))
+            else:
+                ctx.count("alias:alloc-only")
         # --- the step completed: the property must hold for `target`
         ok = self.judge(target, name, step)
         if on_copy and snapshot(self.state) != before:
